@@ -448,9 +448,15 @@ class Native(object):
         self.roots = [cid(r) for r in g.roots]
 
     def run(self, tags, deps, **cfg):
+        """returns the result dict of the native batch, or {'error': text} when parse_sentence made the grammar callbacks fail
+        (e.g. asked about a category id that does not exist): that is behaviour of the code under test, not of the harness"""
         n = tags.shape[1]
         c = self.rt.make_config(len(self.g.tags), **cfg)
-        return self.batch.run(tags, deps, n, self.roots, c)
+        try:
+            return self.batch.run(tags, deps, n, self.roots, c)
+        except (IndexError, KeyError, RuntimeError) as e:
+            self.batch.errors.clear()
+            return {'error': f'{type(e).__name__}: {e}'}
 
     def canon(self, ser):
         """serialised native derivation -> canonical tree (labels looked up from the grammar results by rule id);
